@@ -17,22 +17,28 @@ CLAIMS = {
        "a permutation of S (hashrpdac_spec, hashrpf_spec, hashrpdac_blocks_spec, for every object passing the verified checker); (3) the "
        "bit-exact RPFC model (Re-Pair packed internal strings), RPDAC (compare-while-expanding binary search) and the FM-index model equal "
        "the specification (rpfc_locate_spec/rpfc_extract_spec, rpdac_*_spec, fm_*_spec, each for every object certified by its verified "
-       "checker); (4) the abstract specification itself is a bijection [1,n] <-> S. Tie: all 13 kinds x parameters x "
+       "checker); (4) XBW: over the arrays dumped from the loaded object, certified by the verified checker xbw_check against the trie computed "
+       "in Coq from S, locate (every pattern, incl. the empty one) and extract (every id) equal the specification over the explicit ID order "
+       "(reversed-string order) and are mutually inverse (C01_xbw_member_round_trip, C01_xbw_id_round_trip); (5) the abstract specification "
+       "itself is a bijection [1,n] <-> S. Tie: all 13 kinds x parameters x "
        "{fresh, reloaded} compared with the extracted specification on every id and member; PFC additionally at layout level "
        "(text bytes, offsets) and query level against the extracted concrete model.",
   note="PFC is proved from the constructor on; RPFC, RPDAC, FMINDEX, HASHRPDAC, HASHRPF, Blocks are proved for every object whose dumped "
        "state passes a verified checker (the constructors' Re-Pair / suffix-sorting choices are validated per instance, not verified); "
-       "HTFC/HHTFC/RPHTFC/HASHHF/HASHUFFDAC (chunked decoding table) and XBW are tied to the specification by correspondence only. "
+       "XBW likewise (wavelet tree / RRR bitmaps as plain lists); HTFC/HHTFC/RPHTFC/HASHHF/HASHUFFDAC (chunked decoding table) are tied to "
+       "the specification by correspondence only. "
        "RPFC theorems need strings shorter than 2^14 (the real code breaks on 3-byte VBytes: recorded defect). Known findings: known_findings.json.",
   technique="Coq proof (induction over the string list / bucket scan invariants) + extracted-model/implementation correspondence"),
  "C02": dict(
   text="Coq theorems: PFC model returns 0 for every non-member NUL-free query and NULL for every id outside [1,n] incl. ids >= 2^32 "
        "(pfc_no_false_positive, pfc_bad_id_null); the memory-error outcome of the model (any read outside the text / offset array or past "
        "the pattern's NUL) is unreachable for every query (pfc_locate_safe, pfc_extract_safe); double hashing: an absent key is never found, "
-       "the probe loop terminates within tsize probes and never reads outside the table (dh_search_absent, dh_search_no_oob). Tie: all 13 "
+       "the probe loop terminates within tsize probes and never reads outside the table (dh_search_absent, dh_search_no_oob); XBW: locate of "
+       "every absent pattern (the empty one included) is 0, extract of every id outside [1,n] is NULL, no read outside the arrays "
+       "(C02_xbw_absent, C02_xbw_bad_id). Tie: all 13 "
        "kinds on boundary-directed absent queries (proof-directed splice family aimed at the scan's case split) and bad ids, each query in "
        "its own ASan process with an exact-size pattern buffer.",
-  note="Bounds safety is a theorem for the PFC and hashing models only; for the other kinds the ASan verdict of the explored queries is supporting "
+  note="Bounds safety is a theorem for the PFC, RPFC, RPDAC, FM, XBW and hashing models (checked reads); for the Hu-Tucker/Huffman kinds the ASan verdict of the explored queries is supporting "
        "evidence, not a proof.",
   technique="Coq proof (checked-read model: out-of-bounds is an unreachable outcome) + correspondence under ASan"),
  "C03": dict(
@@ -45,13 +51,15 @@ CLAIMS = {
  "C04": dict(
   text="Coq theorems: the byte-exact PFC model of locateBoundaryBuckets (three binary searches), searchPrefix, searchDistinctPrefix, "
        "locatePrefix, IteratorDictIDContiguous and extractPrefix returns exactly range_of (spec_prefix_ids S p) / the matching strings for "
-       "EVERY valid set, bucket size and non-empty pattern, (0,0) and a null iterator when nothing matches, with no read outside the "
+       "EVERY valid set, bucket size and non-empty pattern (the empty pattern: correspondence, theorem in progress), (0,0) and a null iterator when nothing matches, with no read outside the "
        "dictionary (pfc_locate_prefix_spec, pfc_locate_prefix_ids, pfc_extract_prefix_spec); RPDAC: the three binary searches over "
        "compare-while-expanding on the grammar equal the specification (rpdac_locate_prefix_spec, over any well-formed grammar); FM-index: "
        "the interval of \\1 p shifted by the separator-rotated mapping equals the specification (fm_locatePrefix_spec, over any BWT passing "
-       "the verified checker); specification: matching IDs of a sorted set are one contiguous ascending duplicate-free range. Tie: the "
+       "the verified checker); XBW: subPathSearch returns exactly the nodes whose upward path starts with the reversed pattern and the "
+       "interval handed to both prefix iterators is the sibling block below the pattern's node (C04_xbw_subPathSearch, "
+       "C04_xbw_prefix_iterator_range; the BFS streams themselves: correspondence); specification: matching IDs of a sorted set are one contiguous ascending duplicate-free range. Tie: the "
        "eight prefix-capable kinds against the extracted specification on boundary-directed patterns; PFC also against the concrete model.",
-  note="RPFC/HTFC/HHTFC/RPHTFC copies of the PFC algorithm and XBW are tied by correspondence only. RPDAC and FM theorems are conditional on "
+  note="HTFC/HHTFC/RPHTFC copies of the PFC algorithm are tied by correspondence only; RPFC has its own bit-exact model. The empty pattern is answered wrongly by RPDAC/FMINDEX/XBW (known finding empty-search-pattern). RPDAC and FM theorems are conditional on "
        "per-instance validated artefacts (grammar / BWT produced by the real constructors, checked by verified checkers in C20 / C05 runs).",
   technique="Coq proof (binary-search and scan invariants) + extracted-model/implementation correspondence"),
  "C05": dict(
@@ -183,11 +191,15 @@ CLAIMS = {
   technique="Coq proof + correspondence"),
  "C17": dict(
   text="Coq theorems (closed under the global context) for bit-exact models of VByte encode/decode, LogSequence get_field/set_field for every "
-       "width 1..64 incl. straddling fields, frame properties, vector constructor and save/load; model tied to the working tree by line-by-line "
+       "width 1..64 incl. straddling fields, frame properties, vector constructor and save/load; the libcds 32-bit primitives the DACs are built on "
+       "(get_field/set_field/get_var_field/bits/uint_len for every len <= 32 incl. 0, 32 and word-straddling fields; no shift count >= 32 is "
+       "ever evaluated; stores in any order give the packed array); DAC_VLS / DAC_BVLS constructor layout, access / access_next = the stored "
+       "sequence for every index, first over list-level packing and then over the concrete 32-bit words and BitSequenceRG "
+       "(C17_dac_access_spec_concrete), byte-exact save/load; model tied to the working tree by line-by-line "
        "correspondence of the extracted model with the implementation on boundary-directed cases; property also evaluated directly on the "
        "implementation's outputs.",
-  note="x86-64 shift semantics written into the model. DAC_VLS: see evidence (model + theorems where landed, otherwise correspondence + direct "
-       "property evaluation).",
+  note="x86-64 shift semantics written into the model (and proved never to be exercised for len <= 32). DAC inputs: sequences of symbols below "
+       "2^32 as the callers produce them (dac_wf_c).",
   technique="Coq proof (N.testbit extensionality, induction) + extracted-model/implementation correspondence"),
  "C20": dict(
   text="Coq theorems: abstract nondeterministic Re-Pair (ANY pair without 0, ANY set of non-overlapping occurrences) is lossless for any number "
